@@ -806,7 +806,7 @@ func runMgr(c *Case) {
 			req.Lock()
 			req.behave = append(req.behave, parts[1:]...)
 			req.Unlock()
-		case "request", "request_abort":
+		case "request", "request_abort", "request_late":
 			blockN++
 			h, txs := mkBlock(uint32(c.ID*10+blockN), 3)
 			req.Lock()
@@ -815,10 +815,32 @@ func runMgr(c *Case) {
 				txs []*wire.MsgTx
 			}{h, txs}
 			req.Unlock()
+			if parts[0] == "request_late" {
+				// every source of this request is slow (delivers after 50 ms)
+				req.Lock()
+				if req.calls < len(req.behave) {
+					req.behave = req.behave[:req.calls]
+				}
+				for len(req.behave) < req.calls {
+					req.behave = append(req.behave, "ok")
+				}
+				req.behave = append(req.behave, "hang", "hang", "hang", "hang", "hang", "hang")
+				req.Unlock()
+			}
 			complete, abort := m.AddRequest(ctx, *h.BlockHash(), 100+blockN, proc)
 			if parts[0] == "request_abort" {
 				time.Sleep(8 * time.Millisecond)
 				close(abort)
+			}
+			if parts[0] == "request_late" && len(results) > 0 {
+				// a download thread of the previous block ends successfully only now (its completion
+				// callback runs in a thread of its own): this request is current, and must not be
+				// completed by it
+				prev := results[len(results)-1].hash
+				go func() {
+					time.Sleep(12 * time.Millisecond)
+					m.VerifFinishDownloader(ctx, prev, nil)
+				}()
 			}
 			rr := reqRes{hash: *h.BlockHash()}
 			// collect every signal for a while: exactly one is expected
@@ -969,9 +991,14 @@ func main() {
 					b += ":" + []string{"ok", "ok", "fail", "hang", "hang"}[r.Intn(5)]
 				}
 				ops = append(ops, b+":ok:ok:ok")
-				if r.Chance(1, 4) {
+				switch {
+				case r.Chance(1, 4):
 					ops = append(ops, "request_abort")
-				} else {
+				case j > 0 && r.Chance(1, 2):
+					// slow sources for this request, and a late finisher of the previous one
+					ops[len(ops)-1] = "behave:hang:hang:hang:hang"
+					ops = append(ops, "request_late")
+				default:
 					ops = append(ops, "request")
 				}
 			}
